@@ -1,5 +1,6 @@
 (** Proofs about Model/Upconv.v and Model/SpecTables.v. *)
 Require Import Norad.Model.Upconv Norad.Proofs.NumP.
+Require Norad.Proofs.FontInfoP.
 From Coq Require Import Ascii.
 Open Scope string_scope.
 Open Scope Z_scope.
@@ -597,31 +598,239 @@ Proof.
   destruct (u_fontinfo u); [rewrite F|]; reflexivity.
 Qed.
 
-Lemma validate_nil : validate [] = None.
+Lemma validate_nil : validate [] = Ok tt.
 Proof. reflexivity. Qed.
 
+(** the validator of this model is C13's, so C13's characterisation applies *)
+Lemma validate_ok_spec : forall i, validate i = Ok tt <-> FontInfo.fi_spec (project i).
+Proof.
+  intros i. rewrite <- FontInfoP.validate_iff_spec. unfold validate.
+  destruct (FontInfo.fi_validate (project i)) as [[]|e|s]; split; intros H; try discriminate; reflexivity.
+Qed.
+
+Lemma validate_no_panic : forall i s, validate i <> Panic s.
+Proof.
+  intros i s. unfold validate.
+  destruct (FontInfo.fi_validate (project i)) as [[]|e|s'] eqn:E; try discriminate.
+  exfalso. eapply FontInfoP.validate_no_panic; eauto.
+Qed.
+
 Lemma from_file_valid : forall conv v raw i,
-  from_file_with conv v raw = Ok i -> validate i = None.
+  from_file_with conv v raw = Ok i -> validate i = Ok tt.
 Proof.
   intros conv v raw i H. unfold from_file_with in H.
   destruct (decode_fields _ raw); [|discriminate].
   destruct (conv v k) as [i'|e|s]; try discriminate.
-  destruct (validate i') eqn:E; [discriminate|]. inversion H; subst. exact E.
+  destruct (validate i') as [[]|e|s] eqn:E; try discriminate. inversion H; subst. exact E.
 Qed.
 
 Theorem load_result_valid : forall u l,
-  load_model u = Ok l -> l_version l = 3 /\ validate (l_info l) = None.
+  load_model u = Ok l -> l_version l = 3 /\ validate (l_info l) = Ok tt.
 Proof.
   intros u l H. unfold load_model, load_with in H.
   destruct (negb _); [discriminate|].
   destruct (match u_fontinfo u with Some raw => _ | None => _ end) as [info|e|s] eqn:E; try discriminate.
-  assert (V : validate info = None).
+  assert (V : validate info = Ok tt).
   { destruct (u_fontinfo u); [eapply from_file_valid; eauto|]. inversion E; subst. reflexivity. }
   destruct (if u_version u =? 1 then u_lib u else None) as [libfile|].
   - unfold robofab_with in H. destruct (decode_libdata libfile) as [ld|]; [|discriminate].
     destruct (ld_hint ld) as [h|].
-    + destruct (validate (apply_hints h info)) eqn:E2; [discriminate|].
+    + destruct (validate (apply_hints h info)) as [[]|e|s] eqn:E2; try discriminate.
       inversion H; subst. cbn. auto.
     + inversion H; subst. cbn. auto.
   - inversion H; subst. cbn. auto.
+Qed.
+
+Theorem load_no_panic : forall u s, load_model u <> Panic s.
+Proof.
+  intros u s H. unfold load_model, load_with in H.
+  destruct (negb _); [discriminate|].
+  destruct (match u_fontinfo u with Some raw => _ | None => _ end) as [info|e|s'] eqn:E; try discriminate.
+  - destruct (if u_version u =? 1 then u_lib u else None) as [libfile|]; [|discriminate].
+    unfold robofab_with in H. destruct (decode_libdata libfile) as [ld|]; [|discriminate].
+    destruct (ld_hint ld) as [h|]; [|discriminate].
+    destruct (validate (apply_hints h info)) as [[]|e|s'] eqn:E2; try discriminate.
+    eapply validate_no_panic; eauto.
+  - destruct (u_fontinfo u) as [raw|]; [|discriminate].
+    unfold from_file_with in E. destruct (decode_fields _ raw) as [r|]; [|discriminate].
+    rewrite conv_code_spec in E. unfold conv_spec in E.
+    destruct (table_convert _ r) as [i|e|s''] eqn:T; try discriminate.
+    + destruct (validate i) as [[]|e|s''] eqn:V; try discriminate. eapply validate_no_panic; eauto.
+    + eapply table_convert_no_panic; eauto.
+Qed.
+
+(** * 6. the projection onto C13's record is exact on loaded legacy infos *)
+Definition complex_keys : list string :=
+  flat_map (fun kt : string * vty => match snd kt with TComplex => [fst kt] | _ => [] end) ufo3_schema.
+Definition hint_targets : list string := map (fun r : string * string * hshape => fst (fst r)) spec_hint_table.
+
+Lemma complex_not_target : forall k, In k complex_keys ->
+  ~ In k (map target_of spec_v1_table) /\ ~ In k (map target_of spec_v2_table) /\ ~ In k hint_targets.
+Proof.
+  assert (H : forallb (fun k => negb (mem k (map target_of spec_v1_table)) &&
+                                negb (mem k (map target_of spec_v2_table)) &&
+                                negb (mem k hint_targets)) complex_keys = true) by (vm_compute; reflexivity).
+  intros k Hk. rewrite forallb_forall in H. specialize (H k Hk).
+  apply andb_true_iff in H. destruct H as [H H3]. apply andb_true_iff in H. destruct H as [H1 H2].
+  repeat split; intros C; apply mem_In in C; rewrite C in *; discriminate.
+Qed.
+
+Definition table_of (v : Z) : list row := if v =? 1 then spec_v1_table else spec_v2_table.
+Definition schema_of (v : Z) : list (string * vty) := if v =? 1 then v1_schema else v2_schema.
+
+Lemma rows_typed_of : forall v, forallb (row_typed (schema_of v)) (table_of v) = true.
+Proof.
+  intros v. unfold schema_of, table_of. destruct (v =? 1); [exact v1_rows_typed|exact v2_rows_typed].
+Qed.
+Lemma table_of_cases : forall v k, In k (map target_of (table_of v)) ->
+  In k (map target_of spec_v1_table) \/ In k (map target_of spec_v2_table).
+Proof. intros v k H. unfold table_of in H. destruct (v =? 1); [left|right]; exact H. Qed.
+
+(** [from_file] for a legacy version, opened up *)
+Lemma from_file_inv : forall v raw i,
+  from_file_with conv_code v raw = Ok i ->
+  exists r, decode_fields (schema_of v) raw = Some r /\ table_convert (table_of v) r = Ok i /\
+            validate i = Ok tt.
+Proof.
+  intros v raw i H. unfold from_file_with in H. fold (schema_of v) in H.
+  destruct (decode_fields (schema_of v) raw) as [r|] eqn:D; [|discriminate].
+  rewrite conv_code_spec in H. unfold conv_spec in H. fold (table_of v) in H.
+  destruct (table_convert (table_of v) r) as [i'|e|s] eqn:T; try discriminate.
+  destruct (validate i') as [[]|e|s] eqn:V; try discriminate. inversion H; subst i'.
+  exists r. auto.
+Qed.
+
+Lemma from_file_keys : forall v raw i k x,
+  from_file_with conv_code v raw = Ok i -> get i k = Some x -> In k (map target_of (table_of v)).
+Proof.
+  intros v raw i k x H G. destruct (from_file_inv _ _ _ H) as (r & _ & T & _).
+  eapply table_convert_keys; [exact T|]. apply get_In. exact G.
+Qed.
+
+Lemma from_file_typed : forall v raw i,
+  from_file_with conv_code v raw = Ok i -> typed ufo3_schema i.
+Proof.
+  intros v raw i H. destruct (from_file_inv _ _ _ H) as (r & D & T & _).
+  apply decode_fields_typed in D.
+  exact (table_convert_typed (schema_of v) (table_of v) r i (rows_typed_of v) D T).
+Qed.
+
+Lemma load_info_shape : forall u l,
+  load_model u = Ok l ->
+  exists info, (forall k x, get info k = Some x ->
+                  In k (map target_of spec_v1_table) \/ In k (map target_of spec_v2_table)) /\
+               typed ufo3_schema info /\
+               (l_info l = info \/ exists h, l_info l = apply_hints h info).
+Proof.
+  intros u l H. unfold load_model, load_with in H.
+  destruct (negb _); [discriminate|].
+  destruct (match u_fontinfo u with Some raw => _ | None => _ end) as [info|e|s] eqn:E; try discriminate.
+  exists info. split; [|split].
+  - intros k x G. destruct (u_fontinfo u) as [raw|].
+    + eapply table_of_cases. eapply from_file_keys; [exact E|exact G].
+    + inversion E; subst info. discriminate G.
+  - destruct (u_fontinfo u) as [raw|].
+    + eapply from_file_typed. exact E.
+    + inversion E; subst info. intros k v [].
+  - destruct (if u_version u =? 1 then u_lib u else None) as [libfile|].
+    + unfold robofab_with in H. destruct (decode_libdata libfile) as [ld|]; [|discriminate].
+      destruct (ld_hint ld) as [h|].
+      * destruct (validate (apply_hints h info)) as [[]|e|s]; try discriminate.
+        inversion H; subst l. right. exists h. reflexivity.
+      * inversion H; subst l. left. reflexivity.
+    + inversion H; subst l. left. reflexivity.
+Qed.
+
+(** the structured format-3 attributes (guidelines, gasp and name records, WOFF data) are absent
+    from every loaded legacy info: the [None]s of the projection are exact *)
+Lemma load_complex_absent : forall u l k,
+  load_model u = Ok l -> In k complex_keys -> get (l_info l) k = None.
+Proof.
+  intros u l k H Hk. destruct (complex_not_target k Hk) as (N1 & N2 & N3).
+  destruct (load_info_shape u l H) as (info & Hkeys & _ & Hshape).
+  assert (G : get info k = None).
+  { destruct (get info k) as [x|] eqn:G; [|reflexivity]. exfalso.
+    destruct (Hkeys k x G); contradiction. }
+  destruct Hshape as [E|[h E]]; rewrite E; [exact G|].
+  rewrite apply_hints_frame; [exact G|exact N3].
+Qed.
+
+Lemma typed_remove_key : forall S k (i : kv), typed S i -> typed S (remove_key k i).
+Proof.
+  intros S k i H k' v Hin. apply H. unfold remove_key in Hin. apply filter_In in Hin. tauto.
+Qed.
+Lemma typed_assign : forall S k o (i : kv), typed S i ->
+  (forall v, o = Some v -> exists t, get S k = Some t /\ has_ty t v = true) ->
+  typed S (assign k o i).
+Proof.
+  intros S k [v|] i H Ho; cbn [assign].
+  - intros k' v' [Hin|Hin].
+    + inversion Hin; subst. apply Ho. reflexivity.
+    + eapply typed_remove_key; eauto.
+  - apply typed_remove_key. exact H.
+Qed.
+Lemma typed_assign_some : forall S k o (i : kv), typed S i ->
+  (forall v, o = Some v -> exists t, get S k = Some t /\ has_ty t v = true) ->
+  typed S (assign_some k o i).
+Proof.
+  intros S k [v|] i H Ho; cbn [assign_some]; [apply typed_assign; assumption|exact H].
+Qed.
+
+Lemma apply_hints_typed : forall h i, typed ufo3_schema i -> typed ufo3_schema (apply_hints h i).
+Proof.
+  intros h i H. unfold apply_hints.
+  repeat first [apply typed_assign | apply typed_assign_some]; try exact H;
+    intros v Hv;
+    unfold h_num, h_bool, h_nums, h_flat in Hv;
+    match type of Hv with
+    | match get h ?k with _ => _ end = _ => destruct (get h k) as [[x|b|l|l]|]; try discriminate
+    end; inversion Hv; subst;
+    eexists; (split; [vm_compute; reflexivity|reflexivity]).
+Qed.
+
+Lemma load_typed : forall u l, load_model u = Ok l -> typed ufo3_schema (l_info l).
+Proof.
+  intros u l H. destruct (load_info_shape u l H) as (info & _ & Ht & [E|[h E]]); rewrite E.
+  - exact Ht.
+  - apply apply_hints_typed. exact Ht.
+Qed.
+
+Lemma map_to_N_exact : forall l, forallb in_u8 l = true -> map Z.of_N (map Z.to_N l) = l.
+Proof.
+  induction l as [|z l IH]; intros H; [reflexivity|]. cbn [forallb map] in *.
+  apply andb_true_iff in H. destruct H as [H1 H2]. unfold in_u8 in H1.
+  apply andb_true_iff in H1. destruct H1 as [H1 _]. apply Z.leb_le in H1.
+  rewrite Z2N.id by exact H1. f_equal. apply IH. exact H2.
+Qed.
+
+(** on a typed info the unsigned projections lose nothing *)
+Lemma project_exact : forall i, typed ufo3_schema i ->
+  (forall l, get i "openTypeOS2Selection" = Some (VInts l) ->
+     FontInfo.i_selection (project i) = Some (map Z.to_N l) /\ map Z.of_N (map Z.to_N l) = l) /\
+  (forall v, get i "openTypeOS2FamilyClass" = Some v ->
+     exists a b, v = VInts [a; b] /\ FontInfo.i_class (project i) = Some (Z.to_N a, Z.to_N b) /\
+                 Z.of_N (Z.to_N a) = a /\ Z.of_N (Z.to_N b) = b) /\
+  (forall s, get i "openTypeHeadCreated" = Some (VStr s) ->
+     FontInfo.i_date (project i) = Some (bytes_of s)) /\
+  (forall l, get i "postscriptBlueValues" = Some (VNums l) ->
+     option_map (@List.length Z) (FontInfo.i_blue (project i)) = Some (List.length l)).
+Proof.
+  intros i Ht. repeat split.
+  - unfold project. cbn [FontInfo.i_selection]. rewrite H. reflexivity.
+  - destruct (In_get_typed _ _ _ _ Ht H) as (t & S1 & S2).
+    vm_compute in S1. inversion S1; subst t. cbn [has_ty] in S2. apply map_to_N_exact. exact S2.
+  - intros v G. destruct (In_get_typed _ _ _ _ Ht G) as (t & S1 & S2).
+    vm_compute in S1. inversion S1; subst t.
+    destruct v as [x|z|s|b|l|l]; cbn [has_ty] in S2; try discriminate.
+    apply andb_true_iff in S2. destruct S2 as [L F].
+    destruct l as [|a [|b [|c l]]]; try discriminate.
+    exists a, b. split; [reflexivity|]. split.
+    + unfold project. cbn [FontInfo.i_class]. rewrite G. reflexivity.
+    + cbn [forallb] in F. apply andb_true_iff in F. destruct F as [Fa F].
+      apply andb_true_iff in F. destruct F as [Fb _]. unfold in_u8 in *.
+      apply andb_true_iff in Fa, Fb. destruct Fa as [Fa _]. destruct Fb as [Fb _].
+      apply Z.leb_le in Fa, Fb. rewrite !Z2N.id by assumption. auto.
+  - intros s G. unfold project. cbn [FontInfo.i_date]. rewrite G. reflexivity.
+  - intros l G. unfold project, proj_list. cbn [FontInfo.i_blue]. rewrite G.
+    cbn [option_map]. rewrite map_length. reflexivity.
 Qed.
